@@ -72,6 +72,8 @@ func runC08(p *core.Program, r *core.Report) {
 	r.Rule("C08.selfdelim", "no step/record reader consumes input up to end-of-stream (no Available()-driven reads): steps concatenate", 14)
 	r.Rule("C08.all-steps", "a step list is written element by element: every iteration over the steps emits its step (none is skipped on any condition)", 1)
 	r.Rule("C08.defaulting", "TxRecord.Read mutates decoded fields only by the sanctioned ErrorLevel defaulting", 1)
+	r.Rule("C08.in-place", "decoders store what they read into the container itself (no decode into a range copy, no append after a full-length make)", 10)
+	decodeInPlace(p, x, r, "C08.in-place", []string{"lang/step", "lang/service"})
 	checkRegistry(p, r, "C08.registry", "lang/step", "CreateStep", "Step", "GetStepType")
 	checkRegistry(p, r, "C08.registry", "lang/service", "CreateService", "Service", "GetServiceType")
 	checkFactoryFresh(p, r, "C08.fresh", "lang/step", "CreateStep")
